@@ -386,6 +386,8 @@ IllStmts(x, p) == {
   SFunc(0, x, <<"a">>, <<>>), SReturn(0, Var(x)),
   Say(Bin("lt", Var(x), <<Var(p)>>)), Say(Bin("times", Var(x), <<Var(p)>>)), Say(Bin("and", Var(x), <<Var(p), Var("nope")>>)),
   STurn(0, "up", Lit(Fin(96))), STurn(0, "up", Idx(Var(x), Var(p))), SInc(0, Pro, 1), SRock(0, Lit(Str("lit")), <<Var(p)>>),
+  SRoll(0, N(5), Var(x)), Say(RollE(Lit(Str("abc")))), SRoll(0, Idx(N(5), Var(p)), ENone),          \* a pop of something that is no variable
+  SPNum(0, Var(x), PLit(<<PW("abc"), PD, PW("de")>>)), SRock(0, Var(x), <<PLit(<<PW("a"), PW("lovely")>>)>>), SPNum(0, Idx(Var(x), Var(p)), PLit(<<PW("it")>>)),
   SMut(0, "cut", Lit(Str("a,b")), Var(x), Var(p)), SRoll(0, Idx(Var(x), Var(p)), Pro),
   \* a call where a statement wants something it can write to
   SRock(0, Call(x, <<Var(p)>>), <<N(1), N(2)>>), SRock(0, Call(x, <<Var(p), Pro>>), <<>>), SRoll(0, Call(x, <<Var(p)>>), Var("y")),
